@@ -34,7 +34,7 @@ CLAIMS = {
          "as C11; forged ITEMS (a hash announced with corrupted content, which poisons the flash memory) are outside this property's quantifier over lists - see DESIGN.md F14"),
  "C16": ("notary", "model_checking", "TLC explores Notary.tla - propose / confirm / reject / challenge / waiting / history / balance / saved requests by an honest issuer, an honest receiver and a third key, with the form in which the signed bytes are presented (as issued or re-split), challenge expiry, the read throttle, and handlers split between cache removal and ledger call - for: contracts sealed only through an act of the receiver (modulo the TLA+ signature of known finding F11), at most once, transfers never parked; TLC-simulated and directed call sequences incl. bursts of identical concurrent requests (losers answered like a repetition), an oversize contract, and balance reads after the read throttle has lapsed are executed on the real server (real ledger, cache, flash, challenge store) and TLC judges every reply and the observed cache / ledger content",
          "trusted: handlers are called as Go methods (no TLS/gRPC), challenge expiry by sleeping past a 1 s longevity, TLC"),
- "C15": ("shapes", "exploration", "RpcShapes.tla abstracts every request of the notary, gossip and webhook services to the class of each bytes / sub-message / address field and states the contract (a reply or an error, never a crash; unacceptable shapes are refused; a refusal adds nothing to ledger, awaiting cache or peer table); TLC enumerates the shape space (each field against a valid request, all pairs, the full product for SignedHash requests; triples in the thorough tier) and every enumerated shape is built concretely and sent to the real handlers under recover(), with TLC judging the recorded outcomes; Announce / Discover requests (forged, replayed, genuine, and valid ones overlapping) go over loopback gRPC to real gossip servers and are judged against Membership.tla",
+ "C15": ("shapes", "exploration", "RpcShapes.tla abstracts every request of the notary, gossip and webhook services to the class of each bytes / sub-message / address field and states the contract (a reply or an error, never a crash; unacceptable shapes are refused; a refusal adds nothing to ledger, awaiting cache or peer table); TLC enumerates the shape space (each field against a valid request, all pairs, the full product for SignedHash requests; triples in the thorough tier) and every enumerated shape is built concretely and sent to the real handlers under recover(), with TLC judging the recorded outcomes; Announce / Discover requests (forged, replayed, genuine, and valid ones overlapping) go over loopback gRPC to real gossip servers and are judged against Membership.tla; Webhooks requests run against the real webhook service with HTTP endpoints on loopback ports, a probe notification per address after every step, judged against Webhooks.tla",
          "trusted: handlers are called as Go methods with message structs built directly (nil sub-messages included) rather than decoded from bytes; coverage-guided mutation of serialized requests is not attempted; TLC"),
  "C04": ("seal", "model_checking", "Seal.tla is a symbolic (Dolev-Yao style) model of which bytes go into which digest (the transaction message as a bare concatenation, the vertex digest, the receiver signature that is checked only when present, self-checking addresses); TLC applies every mutation of the quantifier to every honest vertex of a bounded universe and reports exactly two ways around the signatures (known findings F11, F12); all concrete members of every abstract mutation - every single-bit flip of every fixed-size field, every address position, truncations / extensions, boundary moves, swaps between two valid vertices, replaced / stripped signatures and addresses, seeded multi-bit flips, each also to a node that trusts the sealer, twins of a vertex that is parked with an unknown parent, a self-addressed countersigned transaction - are offered to a real node, which must admit a copy exactly when the abstract copy verifies in the model and change nothing when it refuses",
          "trusted: cryptographic strength of ed25519 / sha256 (hashing injective, signatures unforgeable); TLC; LoadDag trusts its stream (no signature check) and is outside this check"),
@@ -71,6 +71,8 @@ m = {"version": 1, "setup_cmd": "./check setup",
          "kind_free_text": "Go race detector over a concurrent workload (co-enabled operations from Ledger.tla)"},
         {"name": "membership", "path": "specs/Membership.tla specs/MembershipTrace.tla harness/cmd/drive/memberdrv.go runner/memberchk.py",
          "serves_properties": ["C15"], "kind_free_text": "TLA+ specification of the discovery protocol (Discover / Announce / joiner's loop, adversary, failures); TLC; real gossipers behind loopback gRPC servers; TLC trace validation (also ./check M01)"},
+        {"name": "webhooks", "path": "specs/Webhooks.tla specs/WebhooksTrace.tla harness/cmd/drive/webhookdrv.go runner/webhookchk.py",
+         "serves_properties": ["C15"], "kind_free_text": "TLA+ specification of the webhook subscriptions (subscribe / replace / remove / notify, endpoints failing, adversary); TLC; the real service and handler with loopback HTTP endpoints; TLC trace validation (also ./check W01)"},
         {"name": "locks", "path": "specs/WalkLocks.tla specs/WalkLocksMC.tla specs/WalkLocksTrace.tla harness/cmd/drive/locks.go runner/locks.py",
          "serves_properties": ["C08"], "kind_free_text": "explicit TLA+ specification of locks, walker goroutines and channels; TLC safety + liveness; real-code fault enumeration judged by TLC"}],
      "checks": [], "not_applicable": [], "notes": "see DESIGN.md; known findings in known_findings.json"}
